@@ -80,7 +80,7 @@ impl Prop for C02 {
             let cfg = if ch.bool() { FrontCfg::default_cfg() } else { FrontCfg::generate(ch) };
             let solver_choice = ch.below(6);
             let sweep_seed: Vec<u32> = (0..40).map(|_| ch.next()).collect();
-            let case = execs::pick_case(ch, &snippets, 5, 6);
+            let case = execs::pick_case_bl(ch, &snippets, 5, 6, 2);
             let meta = if case.source.len() < 2500 && solver_choice % 3 == 0 { MetaCfg { linear_gas: false, linear_ap: false } } else { MetaCfg::linear() };
             let src_hash = hash_str(&case.source);
             let mut sampled = false;
